@@ -23,9 +23,9 @@
 //! Events (judged by spec/trace/T_Failover.tla; nothing is decided here):
 //!   {"op":"new","fam":..,"cache":..,"ttl":..,"cls":..,"beh":{..},"beh2":{..},
 //!    "docs":{"https":[d1,d2],"http":[..],"tcp":[..]},        canonical digests of the documents each mock serves
-//!    "resp":{"len":n,"nl":[..],"mime_at":k,"nb512":b,"prefix":{"<p>":digest}}, the TCP response of path 1 as byte classes
+//!    "resp":{"len":n,"nl":[..],"mime_at":k,"nb512":b,"prefix":[[p,digest],..]}, the TCP response of path 1 as byte classes
 //!    "cuts":[..]}
-//!   {"op":"query","p":i,"seq":n,"res":{"class":"ok","digest":d,"rows":r}|{"class":"err","kind":k}|
+//!   {"op":"query","p":i,"seq":n,"ms":elapsed,"res":{"class":"ok","digest":d,"rows":r}|{"class":"err","kind":k}|
 //!                                     {"class":"panic","msg":m}|{"class":"hang"},
 //!    "contacted":["https","http"],"log":["https GET /wow/versions", ..]}
 //!   {"op":"tick"|"reopen"|"flip","seq":n}
@@ -414,15 +414,12 @@ fn resp_info(w: &Wire) -> Value {
         _ => 0,
     };
     let nb512 = b.len() > 512 && (b[512] & 0xC0) == 0x80;
-    let mut prefix = Map::new();
-    for (p, d) in &w.prefix {
-        prefix.insert(p.to_string(), json!(d));
-    }
+    let prefix: Vec<Value> = w.prefix.iter().map(|(p, d)| json!([p, d])).collect();
     json!({"len": b.len(), "nl": nl, "mime_at": mime_at, "nb512": nb512, "prefix": prefix})
 }
 
 fn empty_resp() -> Value {
-    json!({"len": 0, "nl": [], "mime_at": 0, "nb512": false, "prefix": {}})
+    json!({"len": 0, "nl": [], "mime_at": 0, "nb512": false, "prefix": []})
 }
 
 // --------------------------------------------------------------------------- rows
@@ -430,7 +427,7 @@ fn paths_of(cls: &str) -> Vec<String> {
     match cls {
         "cdns" => vec!["v1/products/wow/cdns".into(), "v1/products/wowt/cdns".into()],
         "bgdl" => vec!["v1/products/wow/bgdl".into(), "v1/products/wowt/bgdl".into()],
-        "summary" => vec!["v1/summary".into(), "v1/summary/eu".into()],
+        "summary" => vec!["v1/summary".into(), "v1/ocsp/5168ff90af0207753cccd9656462a212b859723b".into()],
         "certs" => vec!["v1/certs/5168ff90af0207753cccd9656462a212b859723b".into(), "v1/certs/0011223344556677889900aabbccddeeff001122".into()],
         _ => vec!["v1/products/wow/versions".into(), "v1/products/wowt/versions".into()],
     }
@@ -754,7 +751,7 @@ async fn run_query_row(prog: &Value) -> Vec<Value> {
     let beh1 = beh_map(&prog["beh"]);
     let beh2 = if prog.get("beh2").is_some_and(|b| b.is_object()) { beh_map(&prog["beh2"]) } else { beh1.clone() };
     let cuts: Vec<usize> = prog["cuts"].as_array().map(|a| a.iter().map(|x| x.as_u64().unwrap() as usize).collect()).unwrap_or_default();
-    let shape = prog["shape"].as_str().map(|s| s.to_string());
+    let shape = prog["shape"].as_str().filter(|s| !s.is_empty()).map(|s| s.to_string());
     let row = Arc::new(RowCtx {
         cls: cls.clone(),
         paths: paths_of(&cls),
@@ -824,6 +821,7 @@ async fn run_query_row(prog: &Value) -> Vec<Value> {
                 let path = row.paths[p - 1].clone();
                 let mark = row.log.lock().unwrap().len();
                 let c = client.clone();
+                let t0 = std::time::Instant::now();
                 let h = tokio::spawn(async move { c.query(&path).await });
                 let res = match tokio::time::timeout(Duration::from_secs(QUERY_WATCHDOG_S), h).await {
                     Ok(Ok(Ok(doc))) => json!({"class": "ok", "digest": digest_parsed(&doc), "rows": doc.rows().len()}),
@@ -841,6 +839,7 @@ async fn run_query_row(prog: &Value) -> Vec<Value> {
                 };
                 let log: Vec<(String, String)> = row.log.lock().unwrap()[mark..].to_vec();
                 ev["res"] = res;
+                ev["ms"] = json!(t0.elapsed().as_millis() as u64);
                 ev["contacted"] = json!(log.iter().map(|(e, _)| e.clone()).collect::<Vec<_>>());
                 ev["log"] = json!(log.iter().map(|(_, l)| l.clone()).collect::<Vec<_>>());
             }
